@@ -121,11 +121,16 @@ func h02Index(alpha []string, c string) int {
 // h02Accept: does attempt k (draws k*L .. k*L+L-1) hit every required set?
 // Built without branching on the draws.
 func h02Accept(alpha []string, reqs [][]string, L, k int) bool {
+	return h02AcceptAt(alpha, reqs, L, k, 0)
+}
+
+// h02AcceptAt: as h02Accept for a Generate call whose draws start at index base of the log.
+func h02AcceptAt(alpha []string, reqs [][]string, L, k, base int) bool {
 	ok := true
 	for _, q := range reqs {
 		hit := false
 		for j := 0; j < L; j++ {
-			d := vDraw(k*L + j)
+			d := vDraw(base + k*L + j)
 			for _, c := range q {
 				hit = vOr(hit, d == uint32(h02Index(alpha, c)))
 			}
@@ -160,6 +165,15 @@ func H02() {
 	MaxFailRate = 1.0 // the pre-flight refusal is C13's subject, not this harness's
 	L := r.Length
 
+	// optionally, an earlier full call sequence on a sibling recipe whose
+	// required sets are re-split (results must not depend on it)
+	if prime := vChoice("prime", vParam("primes", 1)); prime > 0 && len(r.RequireSets) > 0 {
+		sib := h06Sibling(r, prime)
+		sib.Entropy()
+		sib.Alphabet()
+		sib.SuccessProbability()
+		vReach("primed")
+	}
 	alpha, reqs, excluded := h02Ref(r)
 	vSample("alphabet", strings.Join(alpha, ""))
 	vSample("required", len(reqs))
